@@ -394,7 +394,13 @@ def generations_tuple(u):
             probs.append('no bound test against the size of ro')
             continue
         want = ['(0 < %s)' % L, '(1 < %s)' % L]
-        if [k for k, t in tests] != want[:len(tests)]:
+        # the same bound may be tested again (after the loop); what counts is
+        # the sequence of distinct tests
+        seq = []
+        for k, t in tests:
+            if not seq or seq[-1] != k:
+                seq.append(k)
+        if seq != want[:len(seq)]:
             probs.append('bound tests %s (required index 0, 1, ... against the size '
                          'of ro)' % [k[:30] for k, t in tests])
         if gets:
@@ -483,9 +489,9 @@ def object_specification_twins(rep, rule, u, dmod):
     kinds = set()
     for ps in normal(pys(f)):
         r = nt(ps.ret)
-        if r == 'ob.__provides__':
+        if r in ('ob.__provides__', "getattr(ob, '__provides__', None)"):
             kinds.add('own')
-            if ps.facts.get('isinstance(ob.__provides__, SpecificationBase)') is not True:
+            if ps.facts.get('isinstance(%s, SpecificationBase)' % r) is not True:
                 probs.append('returns __provides__ without testing that it is a '
                              'specification')
         elif r == 'implementedBy(ob.__class__)':
@@ -494,6 +500,8 @@ def object_specification_twins(rep, rule, u, dmod):
             kinds.add('empty')
             if ps.facts.get('EXCEPT(AttributeError)') is not True:
                 probs.append('returns _empty although __class__ was found')
+        elif r == "implementedBy(getattr(ob, '__class__', None))":
+            probs.append('a missing __class__ is passed on as None')
         else:
             probs.append('returns `%s`' % r[:70])
     if kinds != {'own', 'class', 'empty'}:
